@@ -4,6 +4,7 @@ import FitProps.FileDefContentLemmas
 import FitProps.C13
 import FitProps.ListenerKLemmas
 import FitProps.ListenerKTermLemmas
+import FitProps.ListenerKLegacyLemmas
 /-! # C14 — File types conserve messages; the concurrent listener equals sequential building
 
 First half: the 17 common file types (`Fit.FileDef`, tables regenerated from /repo on every run).
@@ -520,6 +521,23 @@ theorem C14_listener_file_sets (fs : ListenerK.FileSets) (t : Nat) (T : Option F
     (∀ T' ∈ fileTypes, ∃ T'', ListenerK.defaultSets T'.ftype = some T'' ∧ T''.ftype = T'.ftype) := by
   refine ⟨rfl, rfl, ?_⟩
   decide
+
+/-- **The model without options is the model with options at the trivial configuration**: the listener model of
+`FitModel/Listener.lean` (on which theorems of C03 are stated, written before the options were modelled) embeds into the
+model above with `κ = Unit`: the embedding `toK` maps the initial state to the initial state, commutes with every step of
+the producer and of the worker, hence maps reachable states to reachable states, and the one-thread specifications
+coincide. Every theorem of this section therefore holds of the old model too, and every run of the old model is a run of
+the model the correspondence check executes. -/
+theorem C14_listener_legacy_is_instance {M σ : Type} (proc : σ → M → σ) (init : σ) (N : Nat) (script : List (Fit.Listener.Cmd M)) :
+    (∀ s : Fit.Listener.St M σ,
+      ListenerK.stepP init (ListenerK.Legacy.toK s) = (Fit.Listener.stepP init s).map ListenerK.Legacy.toK ∧
+      ListenerK.stepC (fun _ : Unit => proc) (ListenerK.Legacy.toK s) = (Fit.Listener.stepC proc s).map ListenerK.Legacy.toK) ∧
+    (∀ s, Fit.Listener.Reachable proc init N script s →
+      ListenerK.Reachable (fun _ : Unit => proc) init N () (script.map ListenerK.Legacy.cmdK) (ListenerK.Legacy.toK s)) ∧
+    ListenerK.seqRun (fun _ : Unit => proc) init () true init (script.map ListenerK.Legacy.cmdK) =
+      Fit.Listener.seqRun proc init true init script :=
+  ⟨fun s => ⟨ListenerK.Legacy.toK_stepP init s, ListenerK.Legacy.toK_stepC proc s⟩,
+   fun _ h => ListenerK.Legacy.toK_reachable proc init h, ListenerK.Legacy.toK_seqRun proc init true init script⟩
 
 /-- non-vacuity: with buffer size 0 there are reachable states in which the producer is in the middle of `OnMesg`
 (`isFin = false`, hypothesis of `C14_listener_deadlock_free`; `N = 0`, hypothesis of `C14_listener_unbuffered_handover`) and
